@@ -108,7 +108,7 @@ func c08Scenarios(tier string) []e1lib.Scenario {
 			pol = "lifo"
 		}
 		out = append(out, e1lib.Scenario{
-			Name:     fmt.Sprintf("new cap=%d sends=%d+%d close=%v cancel=%v recv=%d pool=%s%s", c.Cap, c.Sends, c.Sends2, c.CloseSender, c.Cancel, c.Recv, pol, map[bool]string{true: fmt.Sprintf(" bound=%d", bound)}[bound >= 0]),
+			Name:     fmt.Sprintf("new cap=%d sends=%d+%d close=%v cancel=%v recv=%d pool=%s%s%s", c.Cap, c.Sends, c.Sends2, c.CloseSender, c.Cancel, c.Recv, pol, map[bool]string{true: fmt.Sprintf(" bound=%d", bound)}[bound >= 0], map[bool]string{true: " elements=any/nil"}[c.Any]),
 			Root:     func() { unbound.Scenario(c) },
 			Check:    c08Check(c),
 			PoolLIFO: lifo, Bound: bound, Deviations: bound >= 0, Sample: c, RealDone: c08Done(c, lifo),
@@ -123,6 +123,16 @@ func c08Scenarios(tier string) []e1lib.Scenario {
 							add(unbound.Cfg{Cap: cp, Sends: s, CloseSender: cl, Cancel: cn, Recv: rv}, lifo)
 						}
 					}
+				}
+			}
+		}
+	}
+	// element type any with nil interface values among the values sent
+	for cp := 0; cp <= 1; cp++ {
+		for sn := 1; sn <= 3; sn++ {
+			for _, cl := range []bool{false, true} {
+				for _, cn := range []bool{false, true} {
+					add(unbound.Cfg{Cap: cp, Sends: sn, CloseSender: cl, Cancel: cn, Recv: -1, Any: true}, true)
 				}
 			}
 		}
